@@ -191,6 +191,7 @@ class Interp:
         self.c = ctx.c
         self.loop_bound = loop_bound
         self.depth = 0
+        self.on_push = None    # hook(recv, guard, value, scope, expr) called at every Vec::push
         self.loop_bounds = {}  # function name -> unrolling bound overriding loop_bound
         self.natives = {}     # name -> python callable(interp, g, args) for stubbing free functions
         self.trace = None
